@@ -94,6 +94,9 @@ mut("C08", "full_lt", "C08.R2", [(C, "let full = remaining <= buf.len();", "let 
 mut("C08", "ready_bytes_not_incremented", "C08.R3", [(C, "                *ready_bytes += full_buf.len();\n", "")], also="C12")
 mut("C08", "push_without_take", "C08.R3", [(C, "let full_buf = mem::take(&mut self.buf);", "let full_buf = self.buf.clone();")])
 mut("C08", "empty_chunk_on_drop", "C08.R6", [(C, "            if !self.buf.is_empty() {\n                let full_buf", "            if !self.buf.is_empty() || dropping {\n                let full_buf")])
+mut("C08", "sweep_fuse_while_writer_alive", "C08.R4", [(C, "if !ready.is_empty() || !writer_dropped {", "if !ready.is_empty() && !writer_dropped {")], also="C20")
+mut("C08", "sweep_fuse_with_chunks_queued", "C08.R4", [(C, "if !ready.is_empty() || !writer_dropped {", "if ready.is_empty() || !writer_dropped {")])
+mut("C16", "sweep_unparseable_true", "C16.R2", [(L, "                    return false; // unparseable.", "                    return true; // unparseable.")])
 # ---------------- C10
 mut("C10", "will_wake_inverted", "C10.R1", [(C, "Some(w) if !w.will_wake(cx.waker()) => w.clone_from(cx.waker()),", "Some(w) if w.will_wake(cx.waker()) => w.clone_from(cx.waker()),")])
 mut("C10", "abort_no_waker_take", "C10.R2", [(C, "            l.state = SharedState::Err(error);\n            waker = l.waker.take();", "            l.state = SharedState::Err(error);\n            waker = None::<std::task::Waker>;")], also="C11")
@@ -162,6 +165,7 @@ mut("C19", "validate_after_first_slash_only", "C19.R3", [(D, "            Some(n
 mut("C19", "gz_without_auto", "C19.R4", [(D, "let should_gzip = self.auto_gzip && super::should_gzip(req_hdrs);", "let should_gzip = super::should_gzip(req_hdrs);")])
 mut("C19", "nul_check_removed", "C19.R3", [(D, "    if memchr::memchr(0, path.as_bytes()).is_some() {\n        return Err(\"path contains NUL byte\");\n    }\n    if path.as_bytes().first()", "    if path.as_bytes().first()")])
 mut("C19", "any_error_falls_back", "C19.R4", [(D, "                    Err(ref e) if e.kind() == ErrorKind::NotFound => {}\n                    Err(e) => return Err(e),", "                    Err(_) => {}")])
+mut("C19", "sweep_builder_setter_noop", "C19.R5", [(D, "        self.auto_gzip = auto_gzip;\n", "")])
 # ---------------- C20
 mut("C20", "reader_restores_ok_on_end", "C20.R1", [(C, "                Poll::Ready(None)\n            }\n            SharedState::Err(e) =>", "                l.state = SharedState::Ok {\n                    ready,\n                    ready_bytes,\n                    writer_dropped,\n                };\n                Poll::Ready(None)\n            }\n            SharedState::Err(e) =>")], also="C10")
 mut("C20", "multipart_error_state_not_end", "C20.R4", [(S, "                        this.state = this.ranges.len() << 1 | 1;\n                        return Poll::Ready(Some(Err(e)));", "                        return Poll::Ready(Some(Err(e)));")], also="C07")
